@@ -32,6 +32,9 @@ JudgeRun(e) ==
            <<"persist " \o env.opts[i],
              \* (the very first --write generates the default CLIENTUID: a run that had none may get it afterwards)
              \/ (env.opts[i] = "clientuid" /\ e.eff[env.opts[i]] = Null /\ uid = Null)
+             \* (an explicit blank cannot be written to the file: the lower sources come back)
+             \/ e.cli[env.opts[i]] = Blank
+             \/ (e.cli["ofxhome"] = Blank /\ env.opts[i] \in HomeOpts)
              \/ Restored(e.srv, e.after, env.fidb, env.home, d2, env.opts[i]) = e.eff[env.opts[i]]>>] \o
         << <<"no-password-stored", ~HasSubText(e.filetext, e.password)>>,
            <<"default-clientuid-generated-once", e.afteruid # Null /\ (uid # Null => e.afteruid = uid)>>,
